@@ -51,3 +51,22 @@ Theorem C05_path_items : forall d c s path o, descends d c s path o ->
   final_state o = Some sf -> parse_params (List.concat flats) s = Ok sf.
 Proof. exact descends_items. Qed.
 Print Assumptions C05_path_items.
+
+(* ---- the walk's recursion fuel is not a restriction on definitions that were loaded ---- *)
+From SPP Require Import Model.Xml Model.Loader Model.Compile Proofs.FuelP Proofs.CompileP.
+(* [ranked d]: nested containers stand earlier in the lookup than their users, inheritors later than their base.  Every
+   definition compiled from a successfully linked document is ranked (the rank is the insertion order proved under C17) ... *)
+Theorem C05_loaded_definitions_are_ranked : forall lits sxc x g d, link sxc x = Ok g -> compile lits g = Ok d -> ranked d.
+Proof. exact compiled_ranked. Qed.
+Print Assumptions C05_loaded_definitions_are_ranked.
+
+(* ... and on a ranked definition any fuel above the number of containers gives the same walk and the same nested parsing:
+   the model's fuel stands for nothing but Python's recursion, which such a definition cannot exhaust by its structure *)
+Theorem C05_walk_fuel_irrelevant : forall d, ranked d -> forall f c s, In c d -> (List.length d < f)%nat ->
+  walk f d c s = walk (S (List.length d)) d c s.
+Proof. exact walk_fuel_irrelevant. Qed.
+Print Assumptions C05_walk_fuel_irrelevant.
+Theorem C05_nesting_fuel_irrelevant : forall d, ranked d -> forall f es s, (List.length d < f)%nat ->
+  parse_entries f d es s = parse_entries (S (List.length d)) d es s.
+Proof. exact parse_entries_fuel_irrelevant. Qed.
+Print Assumptions C05_nesting_fuel_irrelevant.
